@@ -20,6 +20,7 @@ Definition ok30 := table_okb op30 lbp_30 rbpL_30 nudR_30 conflict_30 (fun o => l
 Definition ok31 := table_okb op31 lbp_31 rbpL_31 nudR_31 conflict_31 (fun o => level2 (code_31 o)) (fun o => nonassoc2 (code_31 o)) ulevel2 all_31.
 
 Definition complete20 := nonassoc_completeb op20 conflict_20 (fun o => level2 (code_20 o)) (fun o => nonassoc2 (code_20 o)) all_20.
+Definition complete30 := nonassoc_completeb op30 conflict_30 (fun o => level2 (code_30 o)) (fun o => nonassoc2 (code_30 o)) all_30.
 Definition complete31 := nonassoc_completeb op31 conflict_31 (fun o => level2 (code_31 o)) (fun o => nonassoc2 (code_31 o)) all_31.
 
 (* operator lookup by global code, for the runner *)
